@@ -27,6 +27,7 @@ import Driver.SparseAccept
 import Driver.IStore
 import Driver.ChainAccept
 import Driver.PoolAccept
+import Driver.VerifyBatches
 import Driver.TarFS
 import Driver.ProtoSession
 
@@ -638,6 +639,7 @@ def runLine (l : String) : String :=
     | "sparse.accept" => SparseAccept.run (a.get "isnull") (a.get "readers") (a.get "events")
     | "chunk.fromstorage" => cmdFromStorage a
     | "verify.index" => cmdVerifyIndex a
+    | "verify.batches" => VerifyBatches.cmd a
     | "fmt.next" => cmdFmtNext a
     | "fmt.walk" => cmdFmtWalk a
     | "arch.untar" => cmdUntar a
